@@ -340,6 +340,13 @@ class _Context:
                     # scope.
                     continue
 
+                if name.search_ancestor('import_name', 'import_from') is not None \
+                        or parent.type == 'argument' and parent.children[0] is name \
+                        and parent.children[1] == '=':
+                    # For Python names in imports and keyword argument names
+                    # are neither used nor assigned to before the declaration.
+                    continue
+
                 if name.is_definition():
                     if parent.type == 'expr_stmt' \
                             and parent.children[1].type == 'annassign':
